@@ -36,6 +36,8 @@ CLAIMS = {
             "CUR abstract interpretation + TBL/TAG table rules over clang AST/CFG", "3 C15"),
     "C16": ("parser-cursor abstract interpretation over the XML tokenizer (bounds and per-loop progress), a save/rewind-aware progress argument for the content loop of parseElement with callee summaries, escape-table agreement between reader stop sets and writer escapes (tables read from the initialisers), stale-pointer rule for raw String buffers across reallocating calls, copy-on-write rules for element values (shared with C09), line/lineStart pairing (1 known finding); structural equality of re-parsed element trees in general is NOT decided",
             "CUR abstract interpretation + TBL/ALIAS/PAIRF rules over clang AST/CFG", "3 C16"),
+    "C18": ("the bounds-safety clauses: value-set analysis (byte domain exact, signed char, casts, masks, dominating guards, return-set summaries) of every non-constant index into a constant-size table; (pointer,length) reads covered by the length guards with lock-step advance and bounded fall-through consumption in the UTF-8 decoder/validator; encoder range tests agree with the decoder's length table on representatives of every range; base64 output index bounded by the input index; that encoder and decoder are inverse on all code points, integer round trips and the hex/base64 values are NOT decided",
+            "VSA (value sets/intervals) + PAIRF/CNT/FIN rules over clang AST/CFG", "3 C18"),
     "C08": ("path and pairing rules over every Buffer member: terminator after every end update on owning paths, ownership<->capacity pairing, allocation X+1 with _capacity X, release/re-seat pairing, complete swap, rule of three, and linear-inequality entailment (own Fourier-Motzkin over dominating guards + class invariant) that every copy/move target and terminator store lies inside the allocation; content equality with a reference byte queue is NOT decided",
             "MPT/PAIRF path rules + linear-inequality abstract domain over clang AST/CFG", "3 C08"),
 }
